@@ -264,18 +264,38 @@ func part2(r *vk.Run) (states, trans int, per []interface{}) {
 			{[]int64{1, 1, 1, 1}, pv, 4, true},
 		}
 	}
-	for _, ru := range runs {
+	// block-id alphabet of a search: A, one competitor, nil. The competitor cycles through B (other parts hash) and the
+	// three near-collisions of A (parts hash differing in byte 6 / the last / the first byte only), so that ids which a
+	// shortened or fingerprinted tally key would merge are voted for against each other; the reference is keyed by the
+	// full id. Two extra searches put all near-collisions into one alphabet.
+	alts := []int{idB, idAm, idAl, idAf}
+	type job struct {
+		run
+		blocks []int
+	}
+	var jobs []job
+	for i, ru := range runs {
+		jobs = append(jobs, job{ru, []int{idA, alts[i%len(alts)], idNil}})
+	}
+	allNear := []int{idA, idAm, idAl, idAf, idNil}
+	if r.Quick() {
+		jobs = append(jobs, job{run{[]int64{1, 1}, pc, 4, false}, allNear})
+	} else {
+		jobs = append(jobs, job{run{[]int64{1, 1}, pc, 6, true}, allNear}, job{run{[]int64{3, 1, 1}, pc, 5, false}, allNear}, job{run{[]int64{1, 1, 1}, pc, 5, false}, allNear})
+	}
+	for _, jb := range jobs {
 		if r.Expired() {
 			break
 		}
-		c := newVSCfg(newWorld(ru.pv), ru.typ, []int{idA, idB, idNil}, ru.full)
+		ru := jb.run
+		c := newVSCfg(newWorld(ru.pv), ru.typ, jb.blocks, ru.full)
 		t := time.Now()
 		res := runVoteSet(r, c, ru.depth)
 		states += res.States
 		trans += res.Transitions
 		per = append(per, map[string]interface{}{"search": c.name, "alphabet": len(c.events), "depth": ru.depth, "depth_completed": res.DepthCompleted,
 			"states": res.States, "transitions": res.Transitions, "per_depth": res.PerDepth, "merge_checks": res.MergeChecks, "fixpoint": res.PerDepth[len(res.PerDepth)-1] == 0})
-		fmt.Printf("    %-46s ops=%d depth=%d states=%d transitions=%d %.1fs\n", c.name, len(c.events), ru.depth, res.States, res.Transitions, time.Since(t).Seconds())
+		fmt.Printf("    %-70s ops=%d depth=%d states=%d transitions=%d %.1fs\n", c.name, len(c.events), ru.depth, res.States, res.Transitions, time.Since(t).Seconds())
 	}
 	return
 }
